@@ -68,10 +68,14 @@ def scenarios():
     for kind in KINDS:
         dbcs = (False,) if kind in ("function", "async") else (False, True)
         for dbc in dbcs:
-            for deco_name in ("require", "ensure", "both"):
+            for deco_name in ("require", "ensure", "both", "placeholders"):
                 decos = {"require": ["@icontract.require(lambda: True)"],
                          "ensure": ["@icontract.ensure(lambda: True)"],
-                         "both": ["@icontract.ensure(lambda: True)", "@icontract.require(lambda: True)"]}[deco_name]
+                         "both": ["@icontract.ensure(lambda: True)", "@icontract.require(lambda: True)"],
+                         # a condition which reads the placeholders: a keyword argument of the call that shadowed one of them would
+                         # make it fail (ViolationError) instead of the documented TypeError
+                         "placeholders": ["@icontract.require(lambda _ARGS, _KWARGS: isinstance(_ARGS, tuple) and isinstance(_KWARGS, dict))"],
+                         }[deco_name]
                 has_post = deco_name in ("ensure", "both")
 
                 def mk(tag, params, args, stage, exc):
@@ -112,6 +116,10 @@ def scenarios():
                     # reserved names as keyword arguments of the call
                     for reserved in ("_ARGS", "_KWARGS"):
                         yield mk("kwarg-" + reserved, "x, **kwargs", "1, {}=2".format(reserved), "call", "TypeError")
+                        # ... also when the callable has no ** parameter to receive it (Python's own TypeError would come only after
+                        # the conditions had been evaluated on the shadowed placeholder)
+                        yield mk("kwarg-no-varkw-" + reserved, "x", "1, {}=0".format(reserved), "call", "TypeError")
+                        yield mk("kwarg-no-varkw-default-" + reserved, "x, y=2, *rest", "1, {}=0".format(reserved), "call", "TypeError")
                     for reserved in ("result", "OLD"):
                         yield mk("kwarg-" + reserved, "x, **kwargs", "1, {}=2".format(reserved), "call" if has_post else "none",
                                  "TypeError" if has_post else None)
